@@ -92,6 +92,8 @@ MUTANTS = [
     ("c10-schedule-keyed-by-instance-only", "C10", "_services/browser.py",
      "        self._next_scheduled_for_alias[(scheduled_query.name.lower(), scheduled_query.alias)] = scheduled_query",
      "        self._next_scheduled_for_alias[('', scheduled_query.alias)] = scheduled_query"),
+    ("c09-conflict-test-compares-spelling", "C09", "_cache.py",
+     "                and cast(DNSPointer, record).alias_key == alias_key", "                and cast(DNSPointer, record).alias == alias"),
     ("c10-kept-query-keeps-old-ttl", "C10", "_services/browser.py",
      "                current.ttl = int(pointer.ttl) if isinstance(pointer.ttl, float) else pointer.ttl\n"
      "                current.expire_time_millis = pointer.get_expiration_time(100)\n", ""),
